@@ -487,6 +487,23 @@ def r8_feature_names_stored_as_given(ctx):
                   f"the features setter stores {stores}: not the names it was given", construct="features setter")
 
 
+def r9_stateless_parameters_not_narrowed(ctx, rid="C12.R9"):
+    """The benchmark models keep their fitted parameters as double-precision arrays; a model reloaded from its file gets the saved lists back as
+    arrays of the same precision (`np.array(list)` -> float64).  A narrowing dtype gives the reloaded model other parameters than the saved
+    ones (1e-7 relative - amplified without bound by an ill-conditioned `cov_re_unscaled_inv` of the LME model)."""
+    import re as _re
+    from ..astq import Canon
+    ctx.rule(rid, "StatelessModel.load_parameters turns the saved lists into arrays without narrowing their precision", 1)
+    f = ctx.ix.func("leaspy.models.stateless", "StatelessModel.load_parameters", rid)
+    ctx.analysed(f)
+    L = Canon(f.node).lines(False, True)
+    text = "; ".join(L)
+    ok = _re.fullmatch(r"\$0\._parameters = \$1\.copy\(\); for \(\$0\._parameters\.items\(\), \((%\d+), (%\d+)\)\); if isinstance\(\2, list\); \$0\._parameters\[\1\] = np\.(array|asarray)\(\2(, dtype=(np\.float64|float|np\.double|'float64'))?\)", text) is not None
+    ctx.form(rid, f, f.node, text, {text} if ok else set(), ["$0._parameters", "np.array("], "lists -> np.array(list) (float64)",
+             "the saved parameters are no longer turned into double-precision arrays as they are: the reloaded model does not carry the saved values",
+             forbidden=[r"float32", r"float16", r"\bhalf\b", r"\bsingle\b", r"dtype=(np\.)?int", r"\.astype\(", r"\.round\(", r"np\.(round|around)\(", r"torch\."], construct="lists to arrays")
+
+
 def rules(ctx):
     r7_trajectories_from_the_current_state(ctx)
     r6_files_read_afresh(ctx)
@@ -499,6 +516,7 @@ def rules(ctx):
     r4_codec(ctx)
     r5_rank(ctx)
     r8_feature_names_stored_as_given(ctx)
+    r9_stateless_parameters_not_narrowed(ctx)
     ctx.trust("json round trip of Python lists / numbers; tensor.tolist(); tensor.view")
     ctx.note("the two `assert (cond, msg)` statements at the end of StatefulModel.load_parameters assert a non-empty tuple (always true): the comparison of provided derived values is dead code (not part of the statement)")
 
